@@ -1,11 +1,13 @@
 (* C01 - Untrusted bytes never crash decoding or the processing that follows it.
    PARTIAL by nature: what is proved is panic-freedom and termination of the model (every array
    index, remove(i), unwrap/expect and assert of the Rust code is a `Panic` branch of the model)
-   and the bound on the nesting of protected headers; stack depth per frame, allocation and wall
+   the bound on the nesting of protected headers, and a linear bound on the byte parser's steps plus
+   its frame-depth bound (Proofs/Cost.v); stack bytes per frame, allocation and wall
    time are runtime behaviour that no model exhibits and are explored by the harness (deep
    nesting families on a 2 MiB thread, declared-length bombs, 1-16 MiB inputs). *)
 From Coset.Model Require Import Prelude Cbor Iana Label Msg Key Cwt Context Api.
 From Coset.Proofs Require Import OneItem NoPanic.
+From Coset.Proofs Require Cost.
 
 (* every value-level decoder terminates with a value or an error: never Panic, never OutOfFuel *)
 Theorem C01_decoders_total :
@@ -97,6 +99,40 @@ Theorem C01_documented_panics :
       r_ct m <> None -> is_recipient_context c = false -> Recipient_decrypt m c aad f = Panic).
 Proof. exact documented_panics. Qed.
 Print Assumptions C01_documented_panics.
+
+(* ===== linear work and bounded recursion of the byte parser (Proofs/Cost.v).  de_c / de_d are the
+   model's de / items / entries / segs with a step counter (one step per invocation of any of the
+   four, failing ones included; dehead, takeN, utf8_valid and the bignum helper are primitive
+   O(bytes taken) work) resp. a frame-depth counter; erasing the counter gives the model back. ===== *)
+Theorem C01_instrumented_parser_is_the_parser :
+  (forall l, fst (Cost.from_reader_c l) = from_reader l) /\ (forall l, fst (Cost.from_reader_d l) = from_reader l).
+Proof. exact (conj Cost.from_reader_c_erase Cost.from_reader_d_erase). Qed.
+Print Assumptions C01_instrumented_parser_is_the_parser.
+
+(* at most 3|l|+1 steps on EVERY input, accepted or not (the factor 3 is attained: C01_steps_tight) *)
+Theorem C01_parser_steps_linear :
+  forall l, (snd (Cost.from_reader_c l) <= 3 * List.length l + 1)%nat.
+Proof. exact Cost.from_reader_steps. Qed.
+Print Assumptions C01_parser_steps_linear.
+
+(* an accepted item costs at most three steps per byte it consumed *)
+Theorem C01_parser_steps_per_consumed_byte :
+  forall l v r n, Cost.from_reader_c l = (Ok (v, r), n) ->
+  from_reader l = Ok (v, r) /\ (List.length r < List.length l)%nat /\ (n + 1 <= 3 * (List.length l - List.length r))%nat.
+Proof. exact Cost.from_reader_steps_ok. Qed.
+Print Assumptions C01_parser_steps_per_consumed_byte.
+
+(* array / map / tag frames never nest deeper than ciborium's recursion limit *)
+Theorem C01_parser_depth_bounded :
+  forall l, (snd (Cost.from_reader_d l) <= 256)%nat.
+Proof. exact Cost.from_reader_depth. Qed.
+Print Assumptions C01_parser_depth_bounded.
+
+Theorem C01_steps_tight :
+  forall n, (n < 256)%nat ->
+  Cost.from_reader_c (Cost.nest n) = (Ok (Cost.nestv n, []), 3 * List.length (Cost.nest n) - 1)%nat.
+Proof. exact Cost.from_reader_steps_tight. Qed.
+Print Assumptions C01_steps_tight.
 
 (* protected headers re-enter the byte parser with a fresh CBOR recursion budget; the number of
    such re-entries is bounded by the budget found in the source (F1 repair): header_at is
